@@ -328,6 +328,17 @@ pub fn check_stream(bytes: &[u8], expect: Option<&Expect>, rng: &mut Rng) -> Out
         }
     }
 
+    // ... and on nothing else: the same bytes at an odd address (a sub-slice of a larger buffer)
+    if let Some((plain, corr, size)) = &results[0] {
+        let mut shifted = vec![0u8; bytes.len() + 9];
+        let off = 1 + (8 - (shifted.as_ptr() as usize % 8)) % 8; // address = 1 modulo 8
+        shifted[off..off + bytes.len()].copy_from_slice(bytes);
+        match guarded(|| decompress_deflate_stream(&shifted[off..off + bytes.len()], false, 0)) {
+            Ok(Ok(r2)) if r2.plain_text == *plain && r2.prediction_corrections == *corr && r2.compressed_size == *size => {}
+            _ => o.viol.push(Viol { prop: "C02", sig: "address-dependence".into(), why: "the result changes when the same bytes lie at another address (modulo 8)".into() }),
+        }
+    }
+
     // C03: agreement with the independent decoder
     if let Some((plain, _, size)) = &results[0] {
         if z.ok {
